@@ -137,14 +137,14 @@ def keyword_name(x: Any) -> Any:
 
 
 EOL = re.compile(rb"[\r\n]")
-SPC = re.compile(rb"\s")
+SPC = re.compile(rb"[\s\x00]")
 NONSPC = re.compile(rb"\S")
 HEX = re.compile(rb"[0-9a-fA-F]")
-END_LITERAL = re.compile(rb"[#/%\[\]()<>{}\s]")
-END_HEX_STRING = re.compile(rb"[^\s0-9a-fA-F]")
+END_LITERAL = re.compile(rb"[#/%\[\]()<>{}\s\x00]")
+END_HEX_STRING = re.compile(rb"[^\s\x000-9a-fA-F]")
 HEX_PAIR = re.compile(rb"[0-9a-fA-F]{2}|.")
 END_NUMBER = re.compile(rb"[^0-9]")
-END_KEYWORD = re.compile(rb"[#/%\[\]()<>{}\s]")
+END_KEYWORD = re.compile(rb"[#/%\[\]()<>{}\s\x00]")
 END_STRING = re.compile(rb"[()\134]")
 OCT_STRING = re.compile(rb"[0-7]")
 ESC_STRING = {
